@@ -297,6 +297,25 @@ def _r2(run, st):
                         bad = True
             if not bad:
                 run.holds("C19.R2", f, c, "polling loop on %s checks worker liveness before waiting again" % qv, **facts)
+    # (i') the receive may be delegated to a helper ("get from the workers"): what matters is the helper's own get
+    for qv in st.queues:
+        for n, c, tgt in common.effect_sites(project, f, cfg, {qv}, "get"):
+            if tgt is None:
+                continue
+            _t, effs = common.helper_effects(project, f, c)
+            es = effs.get(qv, set())
+            run.note_func(tgt)
+            n_waits += 1
+            if "get:blocking" in es:
+                run.violated("C19.R2", f, c, "%s receives from %s through %s, whose get() has no timeout (Queue.get's first positional argument is `block`, not the "
+                             "timeout): the parent waits forever if the worker that should report died" % (f.short, qv, tgt.short), kind="blocking-get", **facts)
+            elif "get:timeout" in es or "get:nonblocking" in es:
+                inspects = [v for v, e_ in effs.items() if "each:attr:exitcode" in e_ or "attr:exitcode" in e_ or "each:is_alive" in e_]
+                if inspects:
+                    run.holds("C19.R2", f, c, "receive on %s delegated to %s: timed get, worker status of %s inspected there" % (qv, tgt.short, inspects[0]), **facts)
+                else:
+                    run.undecided("C19.R2", f, c, "receive on %s delegated to %s: timed get, but no inspection of the workers' status is visible in the helper" % (qv, tgt.short),
+                                  kind="delegated-receive", **facts)
     # (ii) puts on bounded queues handed to the workers
     work_queues = _work_queues(st, project)
     for qv in sorted(work_queues):
